@@ -597,16 +597,20 @@ func (a *Attacker) hit(tr Targeter, atk *attack) *Result {
 		body = io.LimitReader(r.Body, a.maxBody)
 	}
 
-	if res.Body, err = io.ReadAll(body); err != nil {
-		return &res
-	} else if _, err = io.Copy(io.Discard, r.Body); err != nil {
-		return &res
-	}
+	res.Body, err = io.ReadAll(body)
 
+	// The byte counts describe what was captured and sent, also when reading
+	// the rest of the response fails.
 	res.BytesIn = uint64(len(res.Body))
 
 	if req.ContentLength != -1 {
 		res.BytesOut = uint64(req.ContentLength)
+	}
+
+	if err != nil {
+		return &res
+	} else if _, err = io.Copy(io.Discard, r.Body); err != nil {
+		return &res
 	}
 
 	if res.Code = uint16(r.StatusCode); res.Code < 200 || res.Code >= 400 {
